@@ -79,17 +79,23 @@ def walk_deltamax(prog):
     fr = _Frame(f, 0)
     flag = f.params()[1]
     body = f.body()
-    # skip the cache short-circuit (C15's)
+    # skip the cache short-circuit (C15's): the leading if/elif arms whose tests read the object's two memo fields (in whatever nesting)
+    def reads_memo(test):
+        return any(is_self_attr(n) and n.attr in ("dmax", "seqDeltaMax") for n in ast.walk(test))
     lead = None
     for st in body:
-        if isinstance(st, ast.If) and any(isinstance(x, ast.Return) for x in st.body):
+        if isinstance(st, ast.If) and reads_memo(st.test):
             lead = st
             break
+        if not isinstance(st, ast.Expr):
+            break
     if lead is None:
-        raise Undecided("deltaMax has no cache short-circuit", f.loc())
+        raise Undecided("deltaMax does not start with its cache short-circuit", f.loc())
     node = lead
     miss = []
-    while isinstance(node, ast.If) and any(isinstance(x, ast.Return) for x in node.body):
+    while isinstance(node, ast.If) and reads_memo(node.test):
+        if not all(isinstance(x, (ast.Return, ast.If, ast.Expr, ast.Pass)) for x in ast.walk(ast.Module(body=node.body, type_ignores=[])) if isinstance(x, ast.stmt)):
+            raise Undecided("deltaMax: a cache-guard arm does more than return", f.loc(node))
         nxt = node.orelse
         if len(nxt) == 1 and isinstance(nxt[0], ast.If):
             node = nxt[0]
